@@ -18,7 +18,7 @@ use trippy_core::{MultipathStrategy, PortDirection, Protocol};
 type Findings = BTreeMap<String, Finding>;
 
 fn add(f: &mut Findings, key: String, detail: String, replay: Value, weight: usize) {
-    let e = f.entry(key.clone()).or_insert(Finding { key, detail: detail.clone(), replay: replay.clone(), weight: (0, usize::MAX), count: 0 });
+    let e = f.entry(key.clone()).or_insert_with(|| Finding { key, detail: detail.clone(), replay: replay.clone(), weight: (0, usize::MAX), count: 0 });
     e.count += 1;
     if (0, weight) < e.weight {
         e.detail = detail;
